@@ -250,6 +250,13 @@ type runState struct {
 	names  map[interface{}]string
 	wrote  [][2]string // committed writer rows
 	panics []string
+	waits  []waitRec // tasks that started to wait on an in-progress preparation
+}
+
+type waitRec struct {
+	Task  int
+	Point string
+	Seq   int64
 }
 
 func renderNotes(ns []fam.Note) string {
@@ -446,6 +453,7 @@ type result struct {
 	panics    []string
 	trouble   string
 	inUse     int
+	waits     []waitRec
 	closeHung bool          // the end-of-run Close of the statement cache never returned
 	fired     map[int]int64 // fault id -> seq of the driver event at which it (first) fired
 }
@@ -498,6 +506,11 @@ func (p Prop) exec(c *Case) (*result, error) {
 	pool.Bound = c.Bound
 	e.Drv.Cur = s.Cur
 	s.OnAbort = func() { pool.Abort(); e.Drv.Passive = true }
+	s.OnWait = func(t int, point string) {
+		rs.pmu.Lock()
+		rs.waits = append(rs.waits, waitRec{t, point, e.Drv.Tick()})
+		rs.pmu.Unlock()
+	}
 	s.KeyName = func(key interface{}) string {
 		rs.pmu.Lock()
 		defer rs.pmu.Unlock()
@@ -521,6 +534,7 @@ func (p Prop) exec(c *Case) (*result, error) {
 	unhook()
 	res.panics = rs.panics
 	res.wrote = rs.wrote
+	res.waits = rs.waits
 	for t := range rs.recs {
 		res.recs = append(res.recs, rs.recs[t]...)
 	}
@@ -847,6 +861,12 @@ func (p Prop) Run(ci interface{}, focus *core.Violation) *core.Outcome {
 			return o
 		}
 	}
+	// ---- a failed preparation is reported to everyone who waited for it
+	if cl, key, det := failedPrepareReported(c, res); cl != "" {
+		if report(cl, key, det) {
+			return o
+		}
+	}
 	// ---- writer rows
 	want := "base=0;"
 	sort.Slice(res.wrote, func(i, j int) bool { return res.wrote[i][0] < res.wrote[j][0] })
@@ -943,6 +963,50 @@ func preparedOnce(c *Case, res *result) (string, string, string) {
 			}
 			if b.start > a.end {
 				return "prepared_twice", fmt.Sprintf("tx_bound_after_pool_bound|session_mode=%v", c.SessionMode), fmt.Sprintf("%q was prepared again on a transaction (events %d..%d) although a pool-bound entry existed since event %d and no Reset, Close or eviction intervened", a.text, b.start, b.end, a.end)
+			}
+		}
+	}
+	return "", "", ""
+}
+
+// failedPrepareReported: a task that started to wait on the in-progress entry of a text
+// while another task's Prepare of that text was inside the pool, and that Prepare then
+// failed with an injected error, must return that error (the entry in the map at that
+// moment is the preparer's: there is one entry per text).
+func failedPrepareReported(c *Case, res *result) (string, string, string) {
+	open := map[int]*prep{}
+	for _, ev := range res.pool {
+		switch ev.Kind {
+		case "prepare_start":
+			open[ev.Task] = &prep{text: ev.SQL, start: ev.Seq, inTx: ev.InTx}
+		case "prepare":
+			pr := open[ev.Task]
+			delete(open, ev.Task)
+			if pr == nil || ev.Err == "" {
+				continue
+			}
+			marker := ""
+			for _, f := range c.Faults {
+				if f.Kind == "prepare" && f.Type == "err" && strings.Contains(ev.Err, simdrv.Marker(f.ID)) {
+					marker = simdrv.Marker(f.ID)
+				}
+			}
+			if marker == "" {
+				continue
+			}
+			for _, w := range res.waits {
+				if w.Task == ev.Task || !strings.HasPrefix(w.Point, "prepare:") || w.Seq <= pr.start || w.Seq >= ev.Seq {
+					continue
+				}
+				for _, r := range res.recs {
+					if r.Task != w.Task || r.Kind != "use" || r.Call > w.Seq || r.Return < w.Seq || texts[r.Text] != pr.text {
+						continue
+					}
+					if explained(c, res, pr.text, pr.start, r.Return) || strings.Contains(r.Err, marker) {
+						continue
+					}
+					return "failed_prepare_not_reported", fmt.Sprintf("waiter|in_tx=%v|session_mode=%v", r.InTx, c.SessionMode), fmt.Sprintf("task %d's Prepare of %q failed with the injected error %q (events %d..%d); task %d had started to wait for that preparation (%s, event %d) but its operation returned err=%q rows=%q instead of the preparation's error", ev.Task, pr.text, ev.Err, pr.start, ev.Seq, r.Task, w.Point, w.Seq, r.Err, r.Result)
+				}
 			}
 		}
 	}
